@@ -8,7 +8,7 @@ shims).  Directives:
   //@item file=<src> kind=<struct|enum|const|type> name=<N> [keep_attrs=1]
         paste the item's text from /repo verbatim, minus attributes and visibility (rule E11); in a
         `const NAME: &T` the elided lifetime is spelled `'static` (what elision means in a constant)
-  //@unit id=<ID> file=<src> fn=<[ImplHeader::]name> [ret=<name>] [rename=<new fn name>]
+  //@unit id=<ID> file=<src> fn=<[ImplHeader::]name> [ret=<name>] [rename=<new fn name>] [optional=1]
         ... sub-directives ...
   //@end
         paste the function `name` from /repo (searched at module level, or inside the impl block
@@ -42,7 +42,8 @@ shims).  Directives:
                                  -> `from(X, A)` / `to(X, B)` / `range(X, A, B)`; X, A, B verbatim
   //@stubof group=<g> unit=<ID>         emit `#[verifier::external_body] <signature + contract of unit ID
         of contracts/groups/<g>.rs> { unimplemented!() }` (payload lines = extra clauses, logged; a payload
-        that starts with `requires` holds extra call-site obligations and is spliced BEFORE the contract)
+        that starts with `requires` holds extra call-site obligations and is spliced BEFORE the contract);
+        `optional=1` (on `//@unit` and on `//@stubof`): a function that is absent from the text of /repo is skipped
   //@copyfrom file=<rel path> from=<<line prefix>> until=<<line prefix>> [until_nth=k]
         copy the hand-written lines (spec fns) of another template, from the first line starting with
         `from` up to (excluding) the k-th later line starting with `until`; no directives allowed inside
@@ -1013,7 +1014,15 @@ def expand(group_path):
                 impl_header, _, fname = fnspec.rpartition('::')
             else:
                 impl_header, fname = None, fnspec
-            fs, ob, cb = find_fn(src, fname, impl_header)
+            try:
+                fs, ob, cb = find_fn(src, fname, impl_header)
+            except ExtractError as e:
+                if a.get('optional') == '1' and 'found 0 candidates' in str(e):
+                    # `optional=1`: a function that a text of /repo does not have (e.g. a helper introduced by a
+                    # later repair) is skipped: nothing is emitted, callers that need it fail to compile (undecided)
+                    log.append({'unit': unit.id, 'rule': 'OPTIONAL-UNIT', 'what': 'fn %s is absent from %s: unit skipped' % (fnspec, a['file'])})
+                    continue
+                raise
             real = src[fs:cb + 1]
             sig, body = src[fs:ob], src[ob:cb + 1]
             if 'slice_closure' in a:
@@ -1190,7 +1199,18 @@ def expand(group_path):
             # Rule SLICE-CALL (callee side): an `external_body` function that carries, textually, the
             # contract another group proves for the same statements / function of /repo.
             a = parse_kv(rest)
-            txt, srcs = unit_contract_of(a['group'], a['unit'])
+            try:
+                txt, srcs = unit_contract_of(a['group'], a['unit'])
+            except ExtractError as e:
+                if a.get('optional') == '1' and 'found 0 candidates' in str(e):
+                    # the unit's function is absent from this text of /repo (see `//@unit .. optional=1`): no stub
+                    _extra, i = payload_from(i + 1)
+                    _xl = _extra.split('\n')
+                    _cut = next((k for k, l in enumerate(_xl) if not l.strip()), len(_xl))
+                    emit('\n'.join(_xl[_cut:]))   # what follows the first blank line is ordinary template text
+                    log.append({'unit': 'stub:' + a['unit'], 'rule': 'OPTIONAL-UNIT', 'what': 'function of unit %s of group %s is absent: no stub emitted' % (a['unit'], a['group'])})
+                    continue
+                raise
             extra, i = payload_from(i + 1)
             # the extra clauses end at the first blank line; what follows is ordinary template text
             ex_lines = extra.split('\n')
